@@ -6,6 +6,7 @@ import (
 	"reflect"
 
 	at "github.com/DanielSvub/anytype"
+	"verif/bfs"
 	"verif/ev"
 	"verif/jsonref"
 	"verif/par"
@@ -75,7 +76,29 @@ func rootString(a interface{}) string {
 // ---------------- C01 ----------------
 
 func c01One(v *spec.V) (msg, stage string) {
-	c := v.Build()
+	if m, st := c01OneBuilt(v, v.Build(), ""); m != "" {
+		return m, st
+	}
+	if v.Depth() >= 2 {
+		// the same content as an acyclic GRAPH: equal subtrees are one shared container
+		return c01OneBuilt(v, v.BuildShared(), "shared-subtrees/")
+	}
+	return "", ""
+}
+
+func c01OneBuilt(v *spec.V, c interface{}, pfx string) (msg, stage string) {
+	if m, st := c01Pass(v, c); m != "" {
+		return m, pfx + st
+	}
+	// serialising the same container a second time must give the same result (no state may leak
+	// from one String() call into the next)
+	if m, st := c01Pass(v, c); m != "" {
+		return "second String() on the same container: " + m, pfx + "second-call/" + st
+	}
+	return "", ""
+}
+
+func c01Pass(v *spec.V, c interface{}) (msg, stage string) {
 	var s string
 	if p, val := try(func() { s = rootString(c) }); p {
 		return fmt.Sprintf("String() panicked on %s: %v", v, val), "string-panic"
@@ -142,6 +165,23 @@ func rootStringSafe(v *spec.V) (s string) {
 
 func c02One(v *spec.V) (msg, stage string) {
 	c := v.Build()
+	for pass := 0; pass < 2; pass++ {
+		if m, st := c02Pass(v, c); m != "" {
+			if pass == 1 {
+				return "second String() on the same container: " + m, "second-call/" + st
+			}
+			return m, st
+		}
+	}
+	if v.Depth() >= 2 {
+		if m, st := c02Pass(v, v.BuildShared()); m != "" {
+			return "equal subtrees built as one shared container: " + m, "shared-subtrees/" + st
+		}
+	}
+	return "", ""
+}
+
+func c02Pass(v *spec.V, c interface{}) (msg, stage string) {
 	s := rootString(c)
 	if !jsonref.Valid(s) {
 		return fmt.Sprintf("String() of %s is %+q: not a valid RFC 8259 text (strict recogniser)", v, s), "invalid-json"
@@ -181,6 +221,28 @@ func runC02(c *ev.Ctx) {
 	if c.Expired() {
 		c.Cut("deadline reached before the document space was completed")
 	}
+	// containers reached through HISTORIES (not only freshly built ones): explicit-state search over
+	// Set/Unset/Clear/Merge/Pluck resp. Add/Insert/Delete/... programs in which String() is called after
+	// every step; only the String() observation is judged here (the rest belongs to C05/C06)
+	depth := 5
+	if c.Thorough() {
+		depth = 7
+	}
+	osys := c06System(c06Cfg{name: "String() after object histories", keys: []string{"a", "b", "c"}, vals: []interface{}{1, "x", 1.0}, nobj: 2, maxLen: 3, depth: depth})
+	lsys := c05System(c05Cfg{name: "String() after list histories", vals: []interface{}{1, "a", 2.0}, nregs: 2, scratchN: 1, maxLen: 4, depth: depth - 1})
+	for _, mk := range []func() W{osys.Inits[0], lsys.Inits[0]} {
+		_ = mk
+	}
+	oin, lin := osys.Inits[0], lsys.Inits[0]
+	osys.Inits = []func() W{func() W { w := oin(); w.OnlyString = true; return w }}
+	lsys.Inits = []func() W{func() W { w := lin(); w.OnlyString = true; return w }}
+	if !c.Expired() {
+		r1 := bfs.Run(c, osys)
+		r2 := bfs.Run(c, lsys)
+		c.Set("history_subspace", map[string]interface{}{"object_states": r1.States, "object_depth": r1.DepthCompleted, "list_states": r2.States, "list_depth": r2.DepthCompleted,
+			"transitions": c.Trans(), "note": "every transition is followed by String() on every live container, decoded by encoding/json and compared with the reference model"})
+		c.Eval(int(c.Trans()))
+	}
 }
 
 // ---------------- C16 ----------------
@@ -196,6 +258,23 @@ func formatRoot(c interface{}, n int) string {
 
 func c16One(v *spec.V, n int) (msg, stage string) {
 	c := v.Build()
+	if m, st := c16Pass(v, c, n); m != "" {
+		return m, st
+	}
+	if n == 2 || n == 10 {
+		if m, st := c16Pass(v, c, n); m != "" {
+			return "second FormatString() on the same container: " + m, "second-call/" + st
+		}
+		if v.Depth() >= 2 {
+			if m, st := c16Pass(v, v.BuildShared(), n); m != "" {
+				return "equal subtrees built as one shared container: " + m, "shared-subtrees/" + st
+			}
+		}
+	}
+	return "", ""
+}
+
+func c16Pass(v *spec.V, c interface{}, n int) (msg, stage string) {
 	var out string
 	p, _ := try(func() { out = formatRoot(c, n) })
 	if n < 0 || n > 10 {
